@@ -449,6 +449,7 @@ type reqRec struct {
 	calls   []callRec
 	lookups []lookupRec
 	caSnap  cacheSnap
+	moves   uint32
 	code    []byte
 	lang    *string
 	panicV  interface{}
@@ -667,6 +668,7 @@ func fillRec(rec *reqRec, st *state.State, ca *cache.Cache, rs *recRes) {
 	rec.calls = rs.calls
 	rec.lookups = rs.lookups
 	rec.caSnap = snapCache(ca)
+	rec.moves = st.Moves
 	rec.code = append([]byte{}, st.Code...)
 	if st.Language != nil {
 		s := st.Language.Code
